@@ -81,6 +81,19 @@ CLAIMED["C20"] = ("TLC checks the inclusion rule on StackSel for IPs and stack w
             "Trusted: TLC, mdparse, the harness's read of each thread's stack words through /proc/<pid>/mem.",
             "TLA+ model checking (TLC) + scenario-generated dumps + trace validation", "DESIGN.md 4/C20")
 
+CLAIMED["C03"] = ("TLC checks NoneLeftAttached / NoDup / NoLoss and the liveness property (every thread eventually runs with all queued signals delivered) on a "
+            "tracer-kernel-target model for every interleaving of 3 threads, signals, exits, stop_process outcomes and a hard failure at any step; on the real "
+            "code, thousands of suspend/resume cycles run under a queued-signal flood and dumps run under enumerated environment schedules (a signal at each hook "
+            "point / destination call, bursts, destination failures, hard errors, thread exits); TLC judges the observed end state (/proc, handler counters).",
+            "Trusted: TLC, the kernel abstraction of Ptrace.tla (only end-state violations are reported), /proc and the target's handler counters, hook-driven signal placement.",
+            "TLA+ model checking (TLC, safety + liveness) + schedule enumeration on the real code + trace validation of end states", "DESIGN.md 4/C03")
+CLAIMED["C04"] = ("The register map ptrace -> context (with the format's truncations) is data in the trace specification; contexts of all listed threads of 1..64-thread "
+            "targets (distinct sentinels per register) are compared with registers read by the harness's own ptrace calls; list completeness incl. sandbox and "
+            "exiting threads; spinner targets and the recorded order of tracer steps show no thread runs between captures; TLC checks the schedule invariants "
+            "(NoRunBetweenCaptures, ListedOnce, SandboxOmitted) on the Ptrace model.",
+            "Trusted: TLC, mdparse's context decoder, the harness's ptrace oracle (threads parked in pause), limb projection; x86-64 only.",
+            "TLA+ model checking (TLC) + scenario-generated dumps + trace validation against a declarative register map", "DESIGN.md 4/C04")
+
 NOT_YET = {
 }
 
